@@ -313,6 +313,17 @@ func ebnfNamedCases(res *xResult) {
 	ebnfCase[ebAnyText](res, nil)
 	ebnfCase[ebAnyCustom](res, map[string]bool{"Anon1": true, "Anon2": true, "Anon3": true},
 		participle.ParseTypeWith(func(lex *lexer.PeekingLexer) (any, error) { return lex.Next().Value, nil }))
+	// ... whose reference must not get lost: the root has exactly one production reference, after the "="
+	if p, err := participle.Build[ebAnyCustom](participle.ParseTypeWith(func(lex *lexer.PeekingLexer) (any, error) { return lex.Next().Value, nil })); err == nil {
+		res.Evaluations++
+		if tree, err := ebnf.ParseString(p.String()); err == nil && len(tree.Productions) > 0 {
+			c := &ebnfCounts{ops: map[string]int{}}
+			countExpr(tree.Productions[0].Expression, c)
+			if c.names != 1 || c.literals != 1 {
+				res.violate("the grammar of ebAnyCustom prints as %q: %d production references and %d literals in the root, the tag has 1 and 1", p.String(), c.names, c.literals)
+			}
+		}
+	}
 	ebnfCase[ebUser](res, map[string]bool{"EbParseable": true, "ebParseable": true, "EbCustom": true},
 		participle.ParseTypeWith(func(lex *lexer.PeekingLexer) (ebCustom, error) { return ebCustomV{V: lex.Next().Value}, nil }))
 }
